@@ -71,14 +71,14 @@ def refute_bounded(obligations, verbose=False, bound=3):
             except Exception:
                 continue
             if cr2.status == 'ok':
-                obs2 += [o for o in cr2.obligations if (o.fn, o.clause) in wanted]
+                obs2 += [o for o in cr2.obligations if any(o.fn == f and (o.clause == c or o.clause.startswith(c + '#')) for f, c in wanted)]
         discharge.discharge(obs2, timeout_ms=20000, fallbacks=False)
     finally:
         nparr.BOUND = None
     for o2 in obs2:
         if o2.status != 'refuted':
             continue
-        cands = [ob for ob in unk if ob.status == 'unknown' and ob.fn == o2.fn and ob.clause == o2.clause]
+        cands = [ob for ob in unk if ob.status == 'unknown' and ob.fn == o2.fn and (ob.clause == o2.clause or o2.clause.startswith(ob.clause + '#'))]
         if not cands:
             continue
         ob = sorted(cands, key=lambda x: x.path != o2.path)[0]
